@@ -642,30 +642,124 @@ Proof.
 Qed.
 
 (* ---------------------------------------------------------------- states and histories *)
-Definition inv (st : state) : Prop := 1 < length (heap_of st) /\ pool_ok (length (heap_of st)) (pool st).
+(* maps are heap objects: a pool member names its maps by ids; the table of maps only ever grows at its end *)
+Definition gmesh_ok (n nm : nat) (g : gmesh) : Prop :=
+  sl_ok n (g_idx g) /\ sl_ok n (g_mats g) /\ g_v1 g < nm /\ g_v2 g < nm /\ g_v3 g < nm /\ g_v4 g < nm.
+Definition maps_ok (n : nat) (mh : mheap) : Prop := Forall (amap_ok n) mh.
+Definition inv (st : state) : Prop :=
+  1 < length (heap_of st) /\ 0 < length (maps_of st) /\ maps_ok (length (heap_of st)) (maps_of st) /\
+  Forall (gmesh_ok (length (heap_of st)) (length (maps_of st))) (pool st).
 
 Lemma init_inv : inv init.
-Proof. split; simpl; [lia | constructor]. Qed.
+Proof. unfold inv; simpl. repeat split; try lia; repeat constructor. Qed.
+
+Lemma mget_ok n mh id : maps_ok n mh -> amap_ok n (mget mh id).
+Proof.
+  intros Hm. unfold mget. destruct (nth_in_or_default id mh []) as [Hin | ->]; [|constructor].
+  eapply Forall_forall in Hm; eauto.
+Qed.
+
+Lemma load_ok n nm mh g : maps_ok n mh -> gmesh_ok n nm g -> mesh_ok n (load mh g).
+Proof.
+  intros Hm (A & B & _). unfold load. splits; cbn [idx mats v1 v2 v3 v4]; auto using mget_ok.
+Qed.
+
+Lemma maps_ok_mono n n' mh : n <= n' -> maps_ok n mh -> maps_ok n' mh.
+Proof. intros L. apply Forall_impl. intros a. apply amap_ok_mono; auto. Qed.
+
+Lemma gmesh_ok_mono n n' nm nm' g : n <= n' -> nm <= nm' -> gmesh_ok n nm g -> gmesh_ok n' nm' g.
+Proof. intros L L' (A & B & C & D & E & F). unfold gmesh_ok, sl_ok in *. repeat split; lia. Qed.
+
+(* a member whose map ids exist sees the same maps after the table grew at its end *)
+Lemma load_app mh ml g nm n : gmesh_ok n nm g -> nm <= length mh -> load (mh ++ ml) g = load mh g.
+Proof.
+  intros (_ & _ & C & D & E & F) L. unfold load, mget. rewrite !app_nth1 by lia. reflexivity.
+Qed.
+
+Lemma place_ok n mh pl shared a mh' id :
+  place mh pl shared a = (mh', id) -> 0 < length mh -> shared < length mh -> maps_ok n mh -> amap_ok n a ->
+  (exists ml, mh' = mh ++ ml) /\ length mh <= length mh' /\ maps_ok n mh' /\ id < length mh'.
+Proof.
+  intros E H0 Hs Hm Ha. destruct pl; injection E as <- <-.
+  - split; [exists []; rewrite app_nil_r; auto|]. auto.
+  - split; [exists [a]; auto|]. rewrite app_length; simpl. split; [lia|]. split; [|lia].
+    apply Forall_app; split; auto.
+  - split; [exists []; rewrite app_nil_r; auto|]. auto.
+Qed.
+
+Lemma commit_ok n mh o g0 m mh' g :
+  commit mh o g0 m = (mh', g) -> 0 < length mh -> gmesh_ok n (length mh) g0 -> maps_ok n mh -> mesh_ok n m ->
+  (exists ml, mh' = mh ++ ml) /\ length mh <= length mh' /\ maps_ok n mh' /\ gmesh_ok n (length mh') g.
+Proof.
+  unfold commit. intros E H0 (_ & _ & G1 & G2 & G3 & G4) Hm (A & B & C1 & C2 & C3 & C4).
+  destruct (place mh (map_plan o K1) (g_v1 g0) (v1 m)) as [mh1 i1] eqn:E1.
+  destruct (place mh1 (map_plan o K2) (g_v2 g0) (v2 m)) as [mh2 i2] eqn:E2.
+  destruct (place mh2 (map_plan o K3) (g_v3 g0) (v3 m)) as [mh3 i3] eqn:E3.
+  destruct (place mh3 (map_plan o K4) (g_v4 g0) (v4 m)) as [mh4 i4] eqn:E4.
+  injection E as <- <-.
+  destruct (place_ok n _ _ _ _ _ _ E1 H0 G1 Hm C1) as ((l1 & P1) & L1 & M1 & I1).
+  destruct (place_ok n _ _ _ _ _ _ E2 ltac:(lia) ltac:(lia) M1 C2) as ((l2 & P2) & L2 & M2 & I2).
+  destruct (place_ok n _ _ _ _ _ _ E3 ltac:(lia) ltac:(lia) M2 C3) as ((l3 & P3) & L3 & M3 & I3).
+  destruct (place_ok n _ _ _ _ _ _ E4 ltac:(lia) ltac:(lia) M3 C4) as ((l4 & P4) & L4 & M4 & I4).
+  split; [exists (l1 ++ l2 ++ l3 ++ l4); subst; rewrite <- !app_assoc; reflexivity|].
+  split; [lia|]. split; [exact M4|].
+  unfold gmesh_ok; cbn [g_idx g_mats g_v1 g_v2 g_v3 g_v4]. repeat split; auto; lia.
+Qed.
+
+Lemma commit_all_ok n o g0 ms : forall mh mh' gs,
+  commit_all mh o g0 ms = (mh', gs) -> 0 < length mh -> gmesh_ok n (length mh) g0 -> maps_ok n mh ->
+  Forall (mesh_ok n) ms ->
+  (exists ml, mh' = mh ++ ml) /\ length mh <= length mh' /\ maps_ok n mh' /\ Forall (gmesh_ok n (length mh')) gs.
+Proof.
+  induction ms as [|m r IH]; cbn [commit_all]; intros mh mh' gs E H0 G Hm Hms.
+  - injection E as <- <-. split; [exists []; rewrite app_nil_r; auto|]. auto.
+  - destruct (commit mh o g0 m) as [mh1 g] eqn:E1. destruct (commit_all mh1 o g0 r) as [mh2 gs2] eqn:E2.
+    injection E as <- <-. inversion Hms as [|? ? Hm1 Hr]; subst.
+    destruct (commit_ok n _ _ _ _ _ _ E1 H0 G Hm Hm1) as ((l1 & P1) & L1 & M1 & G1).
+    destruct (IH _ _ _ E2 ltac:(lia) ltac:(eapply gmesh_ok_mono; [| |exact G]; lia) M1 Hr) as ((l2 & P2) & L2 & M2 & G2).
+    split; [exists (l1 ++ l2); subst; rewrite <- app_assoc; reflexivity|].
+    split; [lia|]. split; auto. constructor; auto. eapply gmesh_ok_mono; [| |exact G1]; lia.
+Qed.
+
+Lemma nilg_ok n nm : 0 < n -> 0 < nm -> gmesh_ok n nm nilg.
+Proof. intros. unfold gmesh_ok, nilg, sl_ok; simpl. repeat split; lia. Qed.
 
 Lemma step_facts st o :
   inv st ->
   let st' := fst (step grow true st o) in
   inv st' /\ frame (length (heap_of st)) (heap_of st) (heap_of st') /\
+  (exists ml, maps_of st' = maps_of st ++ ml) /\
   exists l, pool st' = pool st ++ l.
 Proof.
-  intros [H1 Hp]. unfold step.
-  pose proof (exec_ok (heap_of st) (pool st) o H1 Hp) as X.
-  destruct (exec grow true (heap_of st) (pool st) o) as [h' m|h' ms|h'|c]; cbn [fst].
-  - destruct X as (F & L & M). split; [|split; [exact F | exists [m]; reflexivity]].
-    split; cbn [heap_of pool]; [lia|].
-    apply Forall_app; split; [|constructor; [exact M|constructor]].
-    eapply Forall_impl; [|exact Hp]. intros a; apply mesh_ok_mono; exact L.
-  - destruct X as (F & L & M). split; [|split; [exact F | exists ms; reflexivity]].
-    split; cbn [heap_of pool]; [lia|].
-    apply Forall_app; split; [|exact M].
-    eapply Forall_impl; [|exact Hp]. intros a; apply mesh_ok_mono; exact L.
-  - subst h'. split; [split; auto|]. split; [apply frame_refl|]. exists []; rewrite app_nil_r; auto.
-  - split; [split; auto|]. split; [apply frame_refl|]. exists []; rewrite app_nil_r; auto.
+  intros (H1 & H0 & Hm & Hp). unfold step.
+  set (h := heap_of st) in *. set (mh := maps_of st) in *. set (p := pool st) in *.
+  assert (Hlp : pool_ok (length h) (map (load mh) p)).
+  { unfold pool_ok. rewrite Forall_map. eapply Forall_impl; [|exact Hp]. intros g Hg. eapply load_ok; eauto. }
+  assert (G0 : gmesh_ok (length h) (length mh) (nth (operand o) p nilg)).
+  { destruct (nth_in_or_default (operand o) p nilg) as [Hin | ->]; [|apply nilg_ok; lia].
+    eapply Forall_forall in Hp; eauto. }
+  pose proof (exec_ok h (map (load mh) p) o H1 Hlp) as X.
+  destruct (exec grow true h (map (load mh) p) o) as [h' m|h' ms|h'|c]; cbn [fst].
+  - destruct X as (F & L & M).
+    destruct (commit mh o (nth (operand o) p nilg) m) as [mh' g] eqn:E. cbn [fst heap_of maps_of pool].
+    destruct (commit_ok (length h') _ _ _ _ _ _ E H0 ltac:(eapply gmesh_ok_mono; [| |exact G0]; lia)
+                ltac:(eapply maps_ok_mono; [|exact Hm]; lia) M) as ((ml & P) & Lm & Mm & Gm).
+    split; [|split; [exact F | split; [exists ml; exact P | exists [g]; reflexivity]]].
+    unfold inv; cbn [heap_of maps_of pool]. repeat split; try lia; auto.
+    apply Forall_app; split; [|constructor; [exact Gm|constructor]].
+    eapply Forall_impl; [|exact Hp]. intros a; apply gmesh_ok_mono; lia.
+  - destruct X as (F & L & M).
+    destruct (commit_all mh o (nth (operand o) p nilg) ms) as [mh' gs] eqn:E. cbn [fst heap_of maps_of pool].
+    destruct (commit_all_ok (length h') _ _ _ _ _ _ E H0 ltac:(eapply gmesh_ok_mono; [| |exact G0]; lia)
+                ltac:(eapply maps_ok_mono; [|exact Hm]; lia) M) as ((ml & P) & Lm & Mm & Gm).
+    split; [|split; [exact F | split; [exists ml; exact P | exists gs; reflexivity]]].
+    unfold inv; cbn [heap_of maps_of pool]. repeat split; try lia; auto.
+    apply Forall_app; split; [|exact Gm].
+    eapply Forall_impl; [|exact Hp]. intros a; apply gmesh_ok_mono; lia.
+  - subst h'. cbn [heap_of maps_of pool]. split; [unfold inv; cbn [heap_of maps_of pool]; auto|].
+    split; [apply frame_refl|]. split; [exists []; rewrite app_nil_r; auto | exists []; rewrite app_nil_r; auto].
+  - split; [unfold inv; auto|]. split; [apply frame_refl|].
+    split; [exists []; rewrite app_nil_r; auto | exists []; rewrite app_nil_r; auto].
 Qed.
 
 Lemma observe_frame n h h' m : frame n h h' -> mesh_ok n m -> observe h' m = observe h m.
@@ -677,16 +771,20 @@ Proof.
   rewrite !(frame_read n h h'); auto. rewrite !R; auto.
 Qed.
 
-(* one step never changes what an existing pool member reports *)
+(* one step never changes what an existing pool member reports: the arrays it references are untouched (frame) and
+   the maps it references are still the same objects with the same entries (the table of maps only grew) *)
 Lemma step_preserves st o k :
   inv st -> k < length (pool st) ->
   observe_member (fst (step grow true st o)) k = observe_member st k.
 Proof.
-  intros Hi Hk. destruct (step_facts st o Hi) as (_ & F & l & Hl).
+  intros Hi Hk. destruct (step_facts st o Hi) as (_ & F & (ml & Hml) & l & Hl).
   unfold observe_member. rewrite Hl, nth_error_app1; auto.
-  destruct (nth_error (pool st) k) as [m|] eqn:G; simpl; auto.
-  f_equal. eapply observe_frame; [exact F|].
-  destruct Hi as [_ Hp]. eapply pool_get; eauto.
+  destruct (nth_error (pool st) k) as [g|] eqn:G; simpl; auto.
+  destruct Hi as (_ & _ & Hm & Hp).
+  assert (Hg : gmesh_ok (length (heap_of st)) (length (maps_of st)) g).
+  { eapply Forall_forall; [exact Hp|]. eapply nth_error_In; eauto. }
+  f_equal. rewrite Hml. rewrite (load_app _ _ _ _ _ Hg (le_n _)).
+  eapply observe_frame; [exact F|]. eapply load_ok; eauto.
 Qed.
 
 Lemma run_from_inv ops : forall st, inv st -> inv (run_from grow true st ops).
@@ -698,7 +796,7 @@ Qed.
 Lemma run_from_pool ops : forall st, inv st -> length (pool st) <= length (pool (run_from grow true st ops)).
 Proof.
   induction ops as [|o r IH]; simpl; intros st Hi; auto.
-  destruct (step_facts st o Hi) as (Hi' & _ & l & Hl).
+  destruct (step_facts st o Hi) as (Hi' & _ & _ & l & Hl).
   specialize (IH _ Hi'). unfold run_from in *. rewrite Hl, app_length in IH. lia.
 Qed.
 
@@ -707,7 +805,7 @@ Lemma run_from_preserves ops : forall st k,
   observe_member (run_from grow true st ops) k = observe_member st k.
 Proof.
   induction ops as [|o r IH]; simpl; intros st k Hi Hk; auto.
-  destruct (step_facts st o Hi) as (Hi' & _ & l & Hl).
+  destruct (step_facts st o Hi) as (Hi' & _ & _ & l & Hl).
   unfold run_from in *. rewrite IH; auto.
   - apply step_preserves; auto.
   - rewrite Hl, app_length; lia.
@@ -729,6 +827,18 @@ Qed.
 
 Lemma run_inv ops t : inv (run grow true ops t).
 Proof. apply run_from_inv, init_inv. Qed.
+
+(* the table of maps is append-only along every history: no operation stores into an existing map *)
+Lemma run_from_maps ops : forall st, inv st -> exists ml, maps_of (run_from grow true st ops) = maps_of st ++ ml.
+Proof.
+  induction ops as [|o r IH]; simpl; intros st Hi; [exists []; rewrite app_nil_r; auto|].
+  destruct (step_facts st o Hi) as (Hi' & _ & (m1 & Hm1) & _).
+  destruct (IH _ Hi') as (m2 & Hm2). unfold run_from in *. exists (m1 ++ m2). rewrite Hm2, Hm1, app_assoc. reflexivity.
+Qed.
+
+Theorem maps_append_only_proof : forall ops t t', t <= t' ->
+  exists ml, maps_of (run grow true ops t') = maps_of (run grow true ops t) ++ ml.
+Proof. intros ops t t' Ht. rewrite (run_split ops t t' Ht). apply run_from_maps, run_inv. Qed.
 
 (* HEADLINE *)
 Theorem immutable_history_proof : forall ops k t t',
@@ -759,8 +869,8 @@ Theorem siblings_independent_proof : forall ops t o1 o2,
 Proof.
   intros ops t o1 o2 st n s1 s2.
   assert (Hi : inv st) by apply run_inv.
-  destruct (step_facts st o1 Hi) as (Hi1 & _ & l1 & Hl1).
-  destruct (step_facts st o2 Hi) as (Hi2 & _ & l2 & Hl2).
+  destruct (step_facts st o1 Hi) as (Hi1 & _ & _ & l1 & Hl1).
+  destruct (step_facts st o2 Hi) as (Hi2 & _ & _ & l2 & Hl2).
   fold s1 in Hi1, Hl1. fold s2 in Hi2, Hl2.
   split; [intros H; apply step_preserves; auto|].
   split; [intros H; apply step_preserves; auto|].
@@ -796,6 +906,27 @@ Qed.
 (* the same history on the repaired Append, same growth policy: x is unchanged (instance of the theorem, by computation) *)
 Lemma refute_ops_fixed_ok :
   observe_member (run grow_double true refute_ops 10) 8 = observe_member (run grow_double true refute_ops 9) 8.
+Proof. vm_compute. reflexivity. Qed.
+
+(* ---------------------------------------------------------------- a map write is refuted *)
+(* t: Position only (members 0, 1 share the empty v2 map made by NewMesh); u := t + TexCoord.  t.Append(u) with the
+   padding-into-the-operands'-maps Append stores a zero TexCoord array into that shared v2 map: members 0 and 1 report
+   an attribute they never had. *)
+Definition pad_ops : list op :=
+  [ ONew Triangle [[0]; [1]; [2]]%Z 0; OSetAttr K3 0 6%N [[0;0;0]; [1;0;0]; [2;0;0]]%Z 0;
+    OSetAttr K2 1 7%N [[0;0]; [1;0]; [0;1]]%Z 0; OAppend 1 2 ].
+
+Lemma map_write_refuted_proof :
+  exists ops k t t', t <= t' /\ k < length (pool (run_pad grow_double ops t)) /\
+    observe_member (run_pad grow_double ops t') k <> observe_member (run_pad grow_double ops t) k.
+Proof.
+  exists pad_ops, 0, 3, 4. split; [lia|]. split; [vm_compute; lia|].
+  vm_compute. discriminate.
+Qed.
+
+(* the same history on the repaired tree: member 0 unchanged *)
+Lemma pad_ops_fixed_ok :
+  observe_member (run grow_double true pad_ops 4) 0 = observe_member (run grow_double true pad_ops 3) 0.
 Proof. vm_compute. reflexivity. Qed.
 
 (* ---------------------------------------------------------------- the direct oracle *)
